@@ -356,12 +356,19 @@ def _bind(h: ast.FunctionDef, call: ast.Call, skip_first: bool):
     return m
 
 
+# reviewed one-line helpers the rules read through: they are inlined as well, so that merging them into their caller changes nothing
+ALWAYS_INLINE = {
+    'bespokeasm.assembler.preprocessor.condition_stack.ConditionStack._increment_mute_counter',
+    'bespokeasm.assembler.preprocessor.condition_stack.ConditionStack._decrement_mute_counter',
+}
+
+
 def _inline_helpers(repo, ref_funcs: set[str], log: dict) -> None:
-    new_helpers = {q: fi for q, fi in repo.functions.items() if q not in ref_funcs and fi.name.startswith('_') and not fi.name.startswith('__')
+    new_helpers = {q: fi for q, fi in repo.functions.items() if (q not in ref_funcs or q in ALWAYS_INLINE) and fi.name.startswith('_') and not fi.name.startswith('__')
                    and fi.kind in ('function', 'method', 'staticmethod', 'classmethod')}
     if not new_helpers:
         return
-    for _round in range(3):
+    for _round in range(6):
         changed = False
         for q, fi in list(repo.functions.items()):
             if q in new_helpers and _round == 0 and False:
@@ -501,6 +508,57 @@ def _try_inline_stmt(repo, fi, st, helpers, caller_locals):
                     for s in out:
                         _set_lines(s, st)
                     return out or [ast.Pass(lineno=st.lineno, col_offset=0)]
+    # a list comprehension whose element calls a helper: back to the loop that appends
+    if isinstance(st, (ast.Assign, ast.AnnAssign)) and isinstance(getattr(st, 'value', None), ast.ListComp) and len(st.value.generators) == 1:
+        t0 = st.targets[0] if isinstance(st, ast.Assign) and len(st.targets) == 1 else getattr(st, 'target', None)
+        lc = st.value
+        gen = lc.generators[0]
+        if isinstance(t0, ast.Name) and not gen.is_async and any(isinstance(x, ast.Call) and _resolve_helper(repo, fi, x, helpers)[0] is not None for x in ast.walk(lc.elt)) \
+                and not any(isinstance(n, ast.Name) and n.id == t0.id for n in ast.walk(lc)):
+            init = ast.Assign(targets=[ast.Name(id=t0.id, ctx=ast.Store())], value=ast.List(elts=[], ctx=ast.Load()))
+            app = ast.Expr(value=ast.Call(func=ast.Attribute(value=ast.Name(id=t0.id, ctx=ast.Load()), attr='append', ctx=ast.Load()), args=[lc.elt], keywords=[]))
+            inner = [app]
+            for cond in reversed(gen.ifs):
+                inner = [ast.If(test=cond, body=inner, orelse=[])]
+            loop = ast.For(target=gen.target, iter=gen.iter, body=inner, orelse=[])
+            for x in (init, loop):
+                _set_lines(x, st)
+            # _set_lines overwrote nothing structural; restore the shared sub-trees' own positions is unnecessary (same line)
+            return [init, loop]
+    # a call to a multi-statement helper buried in a simple statement whose other parts are pure: give its result a name first
+    if isinstance(st, (ast.Expr, ast.Assign, ast.AnnAssign, ast.AugAssign, ast.Return)):
+        for sub in ast.walk(st):
+            if not isinstance(sub, ast.Call) or sub is call:
+                continue
+            h, skip = _resolve_helper(repo, fi, sub, helpers)
+            if h is None or h.node is fi.node:
+                continue
+            shape_ = _helper_shape(h.node)
+            if shape_ is None or (shape_[0] == 'tail' and len(shape_[1]) == 1):
+                continue
+            # everything else in the statement must be free of effects, so that evaluating the call first changes nothing
+            others_pure = True
+            for n in ast.walk(st):
+                if isinstance(n, ast.Call) and n is not sub and not any(n is y for y in ast.walk(sub)):
+                    if not (_is_pure(ast.Expr(value=ast.Call(func=n.func, args=[], keywords=[]))) or (isinstance(n.func, ast.Attribute) and n.func.attr in _MUTATORS and any(sub is y for y in ast.walk(n)))):
+                        others_pure = False
+            if not others_pure:
+                continue
+            rets = [n for n in ast.walk(h.node) if isinstance(n, ast.Return) and n.value is not None]
+            base = rets[0].value.id if rets and all(isinstance(r.value, ast.Name) and r.value.id == rets[0].value.id for r in rets) else f'_{h.name.strip("_")}_result'
+            tmp = base if base not in caller_locals else f'{base}__{h.name.strip("_")}'
+            caller_locals.add(tmp)
+            asg = ast.Assign(targets=[ast.Name(id=tmp, ctx=ast.Store())], value=sub)
+            _set_lines(asg, st)
+            asg.value = sub
+
+            class R2(ast.NodeTransformer):
+                def visit_Call(self, node):
+                    if node is sub:
+                        return ast.copy_location(ast.Name(id=tmp, ctx=ast.Load()), node)
+                    return self.generic_visit(node)
+            new_st = R2().visit(st)
+            return [asg, new_st]
     # a helper that is a single `return <expr>` used inside a larger expression
     for sub in ast.walk(st):
         if isinstance(sub, ast.Call) and sub is not call:
